@@ -202,6 +202,15 @@ RCP<const MatrixExpr> matrix_mul(const vec_basic &factors)
     // Handle ZeroMatrix first
     for (auto &factor : factors) {
         if (is_a<ZeroMatrix>(*factor)) {
+            // the product has the rows of the first and the columns of the
+            // last factor
+            auto nrows
+                = size(down_cast<const MatrixExpr &>(*expanded.front())).first;
+            auto ncols
+                = size(down_cast<const MatrixExpr &>(*expanded.back())).second;
+            if (!nrows.is_null() && !ncols.is_null()) {
+                return zero_matrix(nrows, ncols);
+            }
             return rcp_static_cast<const MatrixExpr>(factor);
         }
     }
